@@ -185,6 +185,16 @@ func c11Run(b core.Batch, r *core.Recorder) {
 			if err != nil || again != cert {
 				r.Violation("C11", "C11:valid-leaf-not-reused", fmt.Sprintf("target %q: a second request did not return the cached certificate (err=%v)", hp, err), cs, nil)
 			}
+			// reuse is per host: another port of the same host gets the same certificate
+			if h, port, err := net.SplitHostPort(hp); err == nil {
+				other := "8443"
+				if port == other {
+					other = "443"
+				}
+				if c2, err := ca.CA.GetCertForHost(net.JoinHostPort(h, other)); err != nil || c2 != cert {
+					r.Violation("C11", "C11:not-reused-across-ports", fmt.Sprintf("host %q: port %s and port %s were given different certificates (err=%v)", h, port, other, err), cs, nil)
+				}
+			}
 			if i < 3 {
 				r.Sample(map[string]any{"target": hp, "kind": detail})
 			}
